@@ -56,6 +56,15 @@ pub fn values(tier: Tier) -> Vec<Val> {
     out.push(Val::rec(vec![("type".into(), Val::Str("User".into())), ("id".into(), Val::Str("a".into()))]));
     out.push(Val::rec(vec![("fn".into(), Val::Str("ip".into())), ("arg".into(), Val::Str("10.0.0.1".into()))]));
     out.push(Val::rec(vec![("fn".into(), Val::Str("decimal".into())), ("arg".into(), Val::Str("not a decimal".into()))]));
+    // records that spell other escapes: the `unknown` pseudo-function, multi-argument calls, bare keys
+    out.push(Val::rec(vec![("fn".into(), Val::Str("unknown".into())), ("arg".into(), Val::Str("x".into()))]));
+    out.push(Val::rec(vec![("fn".into(), Val::Str("offset".into())), ("args".into(), Val::set(vec![Val::Str("x".into())]))]));
+    out.push(Val::rec(vec![("fn".into(), Val::Str("ip".into()))]));
+    out.push(Val::rec(vec![("arg".into(), Val::Str("10.0.0.1".into()))]));
+    out.push(Val::rec(vec![("type".into(), Val::Str("User".into()))]));
+    out.push(Val::rec(vec![("id".into(), Val::Str("a".into()))]));
+    out.push(Val::rec(vec![("type".into(), Val::Str("User".into())), ("id".into(), Val::Str("a".into())), ("extra".into(), Val::Long(1))]));
+    out.push(Val::rec(vec![("type".into(), Val::Long(1)), ("id".into(), Val::Long(2))]));
     out.push(Val::rec(vec![("__entity".into(), Val::rec(vec![("type".into(), Val::Str("User".into())), ("id".into(), Val::Str("a".into()))]))]));
     out.push(Val::rec(vec![("__extn".into(), Val::rec(vec![("fn".into(), Val::Str("ip".into())), ("arg".into(), Val::Str("10.0.0.1".into()))]))]));
     out.push(Val::rec(vec![("__expr".into(), Val::Str("1 + 1".into()))]));
